@@ -21,7 +21,7 @@ class Inconclusive(Exception):
     pass
 
 
-def _cvc5(smt2, timeout_s=60):
+def _cvc5(smt2, timeout_s=240):
     import os
     import subprocess
     import tempfile
@@ -516,7 +516,7 @@ def _tyname(ty):
 # the executor
 # ------------------------------------------------------------------------------------------------
 class Ctx:
-    def __init__(self, prog: Program, src: SourceInfo, models, decisions, loop_bound=8, timeout_ms=60000):
+    def __init__(self, prog: Program, src: SourceInfo, models, decisions, loop_bound=8, timeout_ms=240000):
         self.prog = prog
         self.src = src
         self.models = models
@@ -579,7 +579,7 @@ class Ctx:
             if r2 in ("sat", "unsat"):
                 return r2 == "sat"
             s2 = z3.Solver()
-            s2.set("timeout", 120000)
+            s2.set("timeout", 600000)
             s2.add(*self.pc)
             s2.add(c)
             r = s2.check()
@@ -941,6 +941,11 @@ class Ctx:
         return ""
 
     def binop(self, op, a, b, fn=None, rv=None):
+        if op in ("Eq", "Ne") and ((z3.is_arith(a) and z3.is_bv(b)) or (z3.is_arith(b) and z3.is_bv(a))):
+            if z3.is_bv(b) and z3.is_bv_value(z3.simplify(b)):
+                b = z3.IntVal(z3.simplify(b).as_long())
+            elif z3.is_bv(a) and z3.is_bv_value(z3.simplify(a)):
+                a = z3.IntVal(z3.simplify(a).as_long())
         if op in ("Eq", "Ne"):
             if isinstance(a, Enum) and isinstance(b, Enum):
                 r = z3.BoolVal(a.idx == b.idx)
@@ -949,6 +954,14 @@ class Ctx:
             return r if op == "Eq" else z3.Not(r)
         if z3.is_bool(a) and op in ("BitAnd", "BitOr", "BitXor"):
             return {"BitAnd": z3.And, "BitOr": z3.Or, "BitXor": z3.Xor}[op](a, b)
+        # time quantities (Instant / Duration and what is derived from them, e.g. `as_millis()`) are integers in
+        # this encoding; a machine-integer constant they are compared with is read as that integer
+        if z3.is_arith(a) and z3.is_bv(b) and z3.is_bv_value(z3.simplify(b)):
+            b = z3.IntVal(z3.simplify(b).as_long())
+        elif z3.is_arith(b) and z3.is_bv(a) and z3.is_bv_value(z3.simplify(a)):
+            a = z3.IntVal(z3.simplify(a).as_long())
+        if op in ("Eq", "Ne") and z3.is_arith(a) and z3.is_arith(b):
+            return a == b if op == "Eq" else a != b
         if z3.is_arith(a) and z3.is_arith(b):
             if op in ("Lt", "Le", "Gt", "Ge"):
                 return {"Lt": a < b, "Le": a <= b, "Gt": a > b, "Ge": a >= b}[op]
@@ -1400,12 +1413,15 @@ class PathResult:
         self.ctx = ctx
 
 
-def explore(prog, src, models, run, max_paths=4000, loop_bound=8):
+def explore(prog, src, models, run, max_paths=4000, loop_bound=8, deadline=None):
     """run(ctx) -> value. Returns (paths, stats). Raises Inconclusive."""
+    import time as _time
     work = [[]]
     paths = []
     stats = {"paths": 0, "infeasible": 0, "queries": 0, "steps": 0}
     while work:
+        if deadline is not None and _time.time() > deadline:
+            raise Inconclusive(f"wall-clock budget of this obligation exceeded after {stats['paths']} paths")
         dec = work.pop()
         ctx = Ctx(prog, src, models, dec, loop_bound=loop_bound)
         res = None
